@@ -22,6 +22,9 @@ type c07History struct {
 	V1    func() (*Ty, []string) // type and derive plugins called in v1
 	V2    func() (*Ty, []string)
 	Trunc int // >0: truncate v1's derived.gen.go to this fraction (percent) before the v2 run
+	// TruncBytes >= 0 with TruncAbs set: truncate to exactly this many bytes (0 = the state right after os.Create)
+	TruncBytes int
+	TruncAbs   bool
 	// raw histories: hand-written user sources (x.go) instead of a generated type + plugin list; Harness is appended
 	// to the v2 package (solver harnesses over the regenerated functions)
 	Raw1, Raw2, Harness string
@@ -98,6 +101,13 @@ func c07Histories(tier string) []c07History {
 		{ID: "H8", What: "truncated remnant (70%) of the previous output", V1: func() (*Ty, []string) { return base(F("X", S)), all }, V2: func() (*Ty, []string) { return base(F("X", S)), all }, Trunc: 70},
 	}
 	hs = append(hs, c07History{ID: "H11", What: "all derive calls removed: the file must be removed", V1: func() (*Ty, []string) { return base(F("X", S)), all }, V2: func() (*Ty, []string) { return base(F("X", S)), nil }})
+	same := func() (*Ty, []string) { return base(F("X", S)), all }
+	hs = append(hs,
+		c07History{ID: "H17", What: "empty remnant (the state right after os.Create)", V1: same, V2: same, TruncAbs: true, TruncBytes: 0},
+		c07History{ID: "H18", What: "remnant cut inside the header comment (20 bytes)", V1: same, V2: same, TruncAbs: true, TruncBytes: 20},
+		c07History{ID: "H19", What: "remnant cut inside the package clause (48 bytes)", V1: same, V2: same, TruncAbs: true, TruncBytes: 48},
+		c07History{ID: "H20", What: "remnant cut right after the package clause", V1: same, V2: same, TruncAbs: true, TruncBytes: 53},
+	)
 	hs = append(hs, c07RawHistories(tier)...)
 	if tier != "quick" {
 		hs = append(hs,
@@ -224,6 +234,12 @@ func runC07(r *Runner) {
 			data, err := os.ReadFile(gen)
 			if err == nil {
 				os.WriteFile(gen, data[:len(data)*h.Trunc/100], 0o644)
+			}
+		}
+		if h.TruncAbs {
+			data, err := os.ReadFile(gen)
+			if err == nil && h.TruncBytes <= len(data) {
+				os.WriteFile(gen, data[:h.TruncBytes], 0o644)
 			}
 		}
 		// v2 sources replace v1's, the old derived.gen.go stays
